@@ -93,6 +93,24 @@ def apply_ops(structure, ops):
         elif k == "scale":
             f = op["f"]
             s = rebuild(s, coord_fn=lambda ri, p: p * f)
+        elif k == "base-only":
+            # a share of the nucleotides is reduced to the base (plus C1'): partially built models, free bases
+            rng = random.Random(op["seed"])
+            victims = {i for i in range(len(s.residues)) if rng.random() < op["frac"]}
+            s = rebuild(s, atom_filter=lambda ri, r, a: ri not in victims or not (a.name.endswith("'") or a.name in ("P", "OP1", "OP2", "OP3", "O1P", "O2P", "O3P")) or a.name == "C1'")
+        elif k == "u-to-t":
+            # every uridine is presented as a thymidine (residue name DT, one-letter name T; the atoms stay, so the
+            # methyl carbon is simply not modelled): the DNA rows of every table are used with RNA geometries
+            from rnapolis.common import ResidueAuth, ResidueLabel
+
+            def relabel(ri, r):
+                if r.one_letter_name != "U":
+                    return r.label, r.auth
+                lab = ResidueLabel(r.label.chain, r.label.number, "DT") if r.label is not None else None
+                auth = ResidueAuth(r.auth.chain, r.auth.number, r.auth.icode, "DT") if r.auth is not None else None
+                return lab, auth
+
+            s = rebuild(s, relabel=relabel, letter_fn=lambda ri, r: "T" if r.one_letter_name == "U" else r.one_letter_name)
         elif k == "first-n":
             # the first n residues only (n = 0: an empty structure)
             s = rebuild(s, keep_res=lambda ri, r, n=op["n"]: ri < n)
